@@ -2,15 +2,38 @@
 Driver for Model/Json.lean:   lake env lean --run PgVerif/Drv/Json.lean      (one JSON text per request, on one line)
   decode <document>      real `to_json` output  -> the model's `decode` as JSON  {"core":{…},"rows":[{"pressure":…,"loading":…,"branch":0|1,…}]} / {"core":…,"model":{…}} / {"core":…}
   encode <iso-json>      the same shape as above -> the model's document as JSON
+  decodeframe <document> the same through the model's step-by-step reader `decodeFrame` (table, `branch` column rewritten)
   canon <iso-json>       -> key-sorted serialisation the identifier is computed from
-The order key for branch guessing is the numeric value of the pressure.
+The order key for branch guessing is the numeric value of the pressure; a missing pressure is below every number (`idxmax` skips it).
+python's `json` writes a missing numeric cell as the bare token `NaN` (and ±`Infinity`), which is not JSON: before parsing, such tokens
+outside string literals are replaced by the object {"$pgv":"NaN"} (no cell, parameter or scalar is ever an object, so nothing real
+is shadowed); the replies use the same object.
 -/
 import Lean.Data.Json
 import PgVerif.Model.Json
 
 open Lean PgVerif.Model.Json
 
+/-- bare `NaN` / `Infinity` / `-Infinity` outside string literals -> {"$pgv":"…"}  (input, inside a string literal?, output reversed) -/
+def protect : List Char → Bool → List Char → List Char
+  | [], _, acc => acc.reverse
+  | '\\' :: c :: t, true, acc => protect t true (c :: '\\' :: acc)
+  | '"' :: t, b, acc => protect t (!b) ('"' :: acc)
+  | 'N' :: 'a' :: 'N' :: t, false, acc => protect t false ("{\"$pgv\":\"NaN\"}".toList.reverse ++ acc)
+  | '-' :: 'I' :: 'n' :: 'f' :: 'i' :: 'n' :: 'i' :: 't' :: 'y' :: t, false, acc => protect t false ("{\"$pgv\":\"-Infinity\"}".toList.reverse ++ acc)
+  | 'I' :: 'n' :: 'f' :: 'i' :: 'n' :: 'i' :: 't' :: 'y' :: t, false, acc => protect t false ("{\"$pgv\":\"Infinity\"}".toList.reverse ++ acc)
+  | c :: t, b, acc => protect t b (c :: acc)
+
+def protectSpecials (s : String) : String :=
+  if (s.splitOn "NaN").length > 1 || (s.splitOn "Infinity").length > 1 then String.ofList (protect s.toList false []) else s
+
+def special (tag : String) : Json := Json.mkObj [("$pgv", .str tag)]
+
 def toScalar : Json → Option Scalar
+  | .obj o => match o.toList with
+    | [("$pgv", .str "NaN")] => some .nan
+    | [("$pgv", .str t)] => some (.num t)
+    | _ => none
   | .null => some .null
   | .bool b => some (.bool b)
   | .num n => some (if n.exponent = 0 then .int n.mantissa else .num (toString n))
@@ -21,8 +44,9 @@ def ofScalar : Scalar → Json
   | .null => .null
   | .bool b => .bool b
   | .int n => .num ⟨n, 0⟩
-  | .num r => match Json.parse r with | .ok j => j | .error _ => .str r
+  | .num r => match Json.parse r with | .ok j => j | .error _ => special r
   | .str s => .str s
+  | .nan => special "NaN"
 
 def toMVal : Json → Option MVal
   | .arr a => (a.toList.mapM toScalar).map .list
@@ -37,10 +61,15 @@ def ofMVal : MVal → Json
 def scalarVal (s : Scalar) : Float :=
   match s with
   | .int n => Float.ofInt n
-  | .num r => (match Json.parse r with | .ok (.num n) => n.toFloat | _ => 0.0)
+  | .num r => (match Json.parse r with | .ok (.num n) => n.toFloat | _ => if r == "Infinity" then 1.0 / 0.0 else if r == "-Infinity" then -1.0 / 0.0 else 0.0)
   | _ => 0.0
 
-def leS (a b : Scalar) : Bool := scalarVal a ≤ scalarVal b
+/-- order key of the branch guess: a missing pressure never is the maximum (`Series.idxmax` skips missing values) -/
+def leS (a b : Scalar) : Bool :=
+  match a, b with
+  | .nan, _ => true
+  | _, .nan => false
+  | _, _ => scalarVal a ≤ scalarVal b
 
 def toModelDict (j : Json) : Option ModelDict := do
   let name ← (j.getObjValAs? String "name").toOption
@@ -115,11 +144,12 @@ def step (line : String) : String :=
   let (cmd, rest) := match line.splitOn " " with
     | c :: r => (c, " ".intercalate r)
     | [] => ("", "")
-  match Json.parse rest with
+  match Json.parse (protectSpecials rest) with
   | .error _ => "bad-op"
   | .ok j =>
     match cmd with
     | "decode" => match (toDoc j).bind (decode leS) with | some i => (ofIso i).compress | none => "none"
+    | "decodeframe" => match (toDoc j).bind (decodeFrame leS) with | some i => (ofIso i).compress | none => "none"
     | "encode" => match toIso j with | some i => (ofDoc (encode "3.0" i)).compress | none => "none"
     | "canon" => match toIso j with
       | some i => let c := canon i; (Json.mkObj [("core", .arr (c.1.map fun (k, v) => .arr #[.str k, ofMVal v]).toArray), ("payload", ofIso ⟨[], c.2⟩)]).compress
